@@ -175,7 +175,25 @@ func (g *gen) numCks(scale int64) []Ck {
 		if scale > 1 && g.r.Chance(30) {
 			v += int64(g.r.Intn(4))
 		}
-		switch g.r.Intn(9) {
+		switch g.r.Intn(11) {
+		case 9:
+			// two bounds on the SAME side, one inclusive and one exclusive, at DIFFERENT values, in either order
+			// (what the Bag merge keeps / drops decides which keyword pair reaches the converter)
+			d := (1 + int64(g.r.Intn(3))) * scale
+			ops := []string{"lt", "lte"}
+			if g.r.Bool() {
+				ops = []string{"gt", "gte"}
+			}
+			if g.r.Bool() {
+				ops[0], ops[1] = ops[1], ops[0]
+			}
+			if g.r.Bool() {
+				cs = append(cs, Ck{Op: ops[0], N: v}, Ck{Op: ops[1], N: v + d})
+			} else {
+				cs = append(cs, Ck{Op: ops[0], N: v + d}, Ck{Op: ops[1], N: v})
+			}
+		case 10:
+			cs = append(cs, Ck{Op: hx.Pick(g.r, []string{"gte", "lte", "gt", "lt"}), N: v})
 		case 0, 1:
 			cs = append(cs, Ck{Op: "gte", N: v})
 		case 2, 3:
@@ -406,10 +424,22 @@ func (g *gen) schema(depth int, top bool) *Sch {
 		s = &Sch{K: "arr"}
 		n := g.r.Intn(4)
 		for i := 0; i < n; i++ {
-			s.Items = append(s.Items, g.schema(depth-1, false))
+			// positional items of mixed optionality (Optional, Optional∘Nilable), in any position: ZodArray.Parse
+			// ignores the flag (exactly len(items) elements, or ≥ len(items) with a rest schema), ZodTuple does not
+			it := g.schema(depth-1, false)
+			if g.r.Chance(30) {
+				it = g.wrap(it, 100, 0)
+			}
+			if i > 0 && g.r.Chance(20) {
+				it = s.Items[g.r.Intn(i)] // one live instance at two positions
+			}
+			s.Items = append(s.Items, it)
 		}
 		if g.r.Chance(35) {
 			s.Rest = g.schema(depth-1, false)
+			if g.r.Chance(15) {
+				s.Rest = g.wrap(s.Rest, 100, 0)
+			}
 		}
 		if g.r.Chance(15) {
 			s.Cks = g.sizeCks()
@@ -429,6 +459,9 @@ func (g *gen) schema(depth int, top bool) *Sch {
 		}
 		if g.r.Chance(35) {
 			s.Rest = g.schema(depth-1, false)
+			if g.r.Chance(15) {
+				s.Rest = g.wrap(s.Rest, 100, 0)
+			}
 		}
 		if g.r.Chance(15) {
 			s.Cks = g.sizeCks()
@@ -871,5 +904,14 @@ func corpusSchemas() []*Sch {
 		&Sch{K: "lit", Lits: []*J{jStr("a"), jInt(1)}},                   // type tag from the first literal only
 		&Sch{K: "obj", Mode: "strip", Catch: intS("int"), Fields: []Field{{"a", str()}}, Cks: []Ck{min2}}, // size after strip
 		&Sch{K: "arr", Rest: &Sch{K: "bool"}, Items: []*Sch{str()}},        // rest without minItems
+		// positional containers with items of mixed optionality: Array demands exactly len(items) elements whatever
+		// the flags, Tuple lets trailing optional items be omitted (RequiredCount) — both with and without a rest schema
+		&Sch{K: "arr", Items: []*Sch{{K: "bool"}, opt(nul(str())), opt(nul(intS("int")))}},
+		&Sch{K: "arr", Items: []*Sch{opt(nul(str())), {K: "bool"}}},
+		&Sch{K: "arr", Items: []*Sch{opt(nul(str())), opt(nul(str()))}},
+		&Sch{K: "tup", Items: []*Sch{{K: "bool"}, opt(nul(str())), opt(nul(intS("int")))}},
+		&Sch{K: "tup", Items: []*Sch{opt(nul(str())), {K: "bool"}, opt(nul(str()))}},
+		&Sch{K: "tup", Rest: &Sch{K: "bool"}, Items: []*Sch{opt(nul(str())), opt(nul(str()))}},
+		&Sch{K: "arr", Rest: opt(nul(str())), Items: []*Sch{}},
 	}
 }
